@@ -305,7 +305,9 @@ def stage(scratch, tier, log):
     try:
         text = build(scratch)
     except Undecided as e:
-        return [Obligation(n, "extraction", UNDECIDED, detail=str(e), functions=[f]) for (n, f) in decl]
+        obs = [Obligation(n, "extraction", UNDECIDED, detail=str(e), functions=[f]) for (n, f) in decl]
+        _refute_natively(scratch, obs, log)
+        return obs
     t0 = time.time()
     rc, out, secs, path = run_verus(scratch, text, "kernel")
     js, errs = parse_verus(out)
@@ -340,6 +342,8 @@ def stage(scratch, tier, log):
             obs.append(Obligation(n, "verus/z3", DISCHARGED if nver > 0 else UNDECIDED, secs / len(decl), functions=[f], kind="complete",
                                   checks=max(1, nver // len(decl)),
                                   detail="all sizes; real body after rewrites R1-R6 (vlib/tierc_kernel.py); invariants derived from the text"))
+    if any(o.status == UNDECIDED for o in obs):
+        _refute_natively(scratch, obs, log)
     return obs
 
 
@@ -479,4 +483,71 @@ def length_stage(scratch, tier, log):
                        "window.iter().enumerate().take(%s); no other length-changing use of %s" % (tot, tot, tot, y))
     except rp.ParseError as ex:
         ob("SINC.make_sincs.head_length.extraction", UNDECIDED, "make_sincs", str(ex))
+    if any(o.status == UNDECIDED for o in obs):
+        _refute_natively(scratch, obs, log)
     return obs
+
+
+REFUTER_MAIN = r"""
+// Concrete refuter for the table-construction contracts (run only when a syntactic length obligation is undecided): builds the real
+// ScalarInterpolator through the public API for a grid of small configurations and exercises the kernel at the first and the last
+// admissible index. Debug build: std's unsafe-precondition checks and overflow checks are on.
+use rubato::sinc_interpolator::{ScalarInterpolator, SincInterpolator};
+use rubato::WindowFunction;
+fn main() {
+    let wfs = [WindowFunction::Blackman, WindowFunction::Blackman2, WindowFunction::BlackmanHarris,
+               WindowFunction::BlackmanHarris2, WindowFunction::Hann, WindowFunction::Hann2];
+    std::panic::set_hook(Box::new(|_| {}));
+    let mut n_cfg = 0usize;
+    for (wi, wf) in wfs.iter().enumerate() {
+        for len in (8..=136usize).step_by(8) {
+            for factor in [1usize, 2, 3, 5, 8, 16, 33, 129] {
+                n_cfg += 1;
+                let wf = *wf;
+                let r = std::panic::catch_unwind(move || {
+                    let it = ScalarInterpolator::<f64>::new(len, factor, 0.9, wf);
+                    if it.len() != len || it.nbr_sincs() != factor { return Err("len()/nbr_sincs() differ from the constructor arguments".to_string()); }
+                    let wave = vec![1.0f64; len + 21];
+                    for &(idx, sub) in &[(0usize, 0usize), (20, factor - 1), (20, 0), (0, factor - 1), (7, factor / 2)] {
+                        let v = it.get_sinc_interpolated(&wave, idx, sub);
+                        if !v.is_finite() { return Err(format!("non-finite result at index {} subindex {}", idx, sub)); }
+                    }
+                    Ok(())
+                });
+                let bad = match r { Err(_) => Some("panic".to_string()), Ok(Err(e)) => Some(e), Ok(Ok(())) => None };
+                if let Some(e) = bad {
+                    println!("REFUTED sinc_len={} oversampling_factor={} window_index={} : {}", len, factor, wi, e);
+                    std::process::exit(1);
+                }
+            }
+        }
+    }
+    println!("NOT-REFUTED configurations={}", n_cfg);
+}
+"""
+
+
+def _refute_natively(scratch, obs, log):
+    """An undecided length obligation (anchor lost) is decided only by a natively reproduced failure of the real constructor / kernel."""
+    from . import native
+    t0 = time.time()
+    rc, out = native.run_program(scratch, "kernel_len", REFUTER_MAIN, timeout=900)
+    secs = time.time() - t0
+    m = re.search(r"^REFUTED (.*)$", out, re.M)
+    log.append("tierc_kernel refuter: rc=%s %.1fs %s" % (rc, secs, (m.group(0) if m else out[-200:])))
+    if rc == 1 and m:
+        for o in obs:
+            if o.status == UNDECIDED:
+                o.status = FAILED
+                o.kind = "bounded"
+                o.bound = "native refuter: 6 windows x sinc_len 8..136 x 8 oversampling factors, 5 kernel calls each"
+                o.seconds += secs
+                o.detail += " -- decided by the concrete refuter on the real code: ScalarInterpolator::<f64>::new / get_sinc_interpolated " \
+                            "fails for " + m.group(1)
+                o.counterexample = {"configuration": m.group(1)}
+                o.replayed = True
+                o.replay_text = "reproduced natively (debug build of the snapshot, public API):\n" + out[-1500:] + "\n--- program ---\n" + REFUTER_MAIN
+    else:
+        for o in obs:
+            if o.status == UNDECIDED:
+                o.detail += " -- concrete refuter found no failing configuration (%s)" % (out.strip().splitlines()[-1][:120] if out.strip() else "no output")
